@@ -86,3 +86,10 @@ reg('C13', 'runtime monitoring: independent RFC 4647 filter + language-determina
     'and compared with an own implementation of RFC 4647 3.3.2 plus the CSS special cases; generated HTML/XHTML/XML/'
     'iframe documents sweep where the language comes from (ancestor chain, lang="", <meta> pragma variants).',
     'Trusted: vlib/reflang.py; the pragma is compared only for whole non-XML HTML documents (elsewhere unspecified).')
+reg('C14', 'runtime monitoring: controlled-schedule monitor (sys.monitoring token-passing scheduler) + free-running stress',
+    'Threads run the real compile/select/match/filter/closest under a deterministic scheduler that preempts at chosen '
+    'statements inside soupsieve: every single-preemption point of both orders for each job pair (quick: <= 350 points per '
+    'order), random 2-6-preemption schedules with 2-4 threads, and a setswitchinterval(1e-6) stress baseline; each '
+    "thread's result, the cache content afterwards and a sequential compile afterwards are compared with the sequential "
+    'reference. Custom maps are fresh per schedule so that nothing cached earlier can hide a window.',
+    'Trusted: statement-granularity preemption; C-level atomicity of re/lru_cache; GIL build.')
